@@ -72,3 +72,12 @@ package epubdoc
 //@   flags nosafety
 //@   ensures base_is_the_directory_of_the_package_file: !err ==> base == (path.Dir(opfPath) == "." ? "" : path.Dir(opfPath))
 //@   ensures spine_is_not_empty: !err ==> !isnil(pkg) && len(pkg.Spine) > 0
+
+// ---- C18: the manifest records every item under its id with the href exactly as declared (percent-decoding happens
+// once, in resolveHref) ----
+//@ func convertManifest results (res)
+//@   property C18
+//@   flags nosafety
+//@   loop 0:
+//@     step item_recorded_as_declared: has(manifest, item.ID) && manifest[item.ID].ID == item.ID && manifest[item.ID].Href == item.Href && manifest[item.ID].MediaType == item.MediaType
+//@     step other_items_kept: forall k string :: {manifest[k]} k != item.ID && has(prev(manifest), k) ==> has(manifest, k) && manifest[k] == prev(manifest)[k]
